@@ -121,6 +121,15 @@ def run_spectral(c):
             big = True
     if [([b.name for b in e.modules], e.weight) for e in sp.edges] != nets0:
         raise Violation("%s: nets changed" % what, "nets-changed")
+    # the netlist's own list of all rectangles is another way to the same positions
+    try:
+        flat = sorted((r.center.x, r.center.y, r.shape.w, r.shape.h) for r in sp.rectangles)
+    except Exception as e:
+        raise Violation("%s: Netlist.rectangles raised %s: %s afterwards" % (what, type(e).__name__, e), "raised:%s@rectangles" % type(e).__name__)
+    per_module = sorted((r.center.x, r.center.y, r.shape.w, r.shape.h) for m in sp.modules for r in m.rectangles)
+    if flat != per_module:
+        raise Violation("%s: Netlist.rectangles and the modules' own rectangles disagree afterwards: %s vs %s" % (
+            what, [x for x in flat if x not in per_module][:3], [x for x in per_module if x not in flat][:3]), "rectangle-lists-disagree")
     kinds = [m["kind"] for m in c["modules"]]
     prov = any(m.get("prov") for m in c["modules"])
     cls = ["trials=%d" % trials]
